@@ -1,6 +1,6 @@
 (* C19 - A writer can be reused: successive dumps are independent.  Property theorems only. *)
 From Coq Require Import List NArith Arith.
-From MDW Require Import Maps ThreadList Reuse.
+From MDW Require Import Maps ThreadList Reuse GenTypes Generated ReuseGen.
 Import ListNotations.
 Local Open Scope N_scope.
 
@@ -15,6 +15,13 @@ Theorem C19_history : forall rqs ws,
   dump_seq true ws rqs = map (fun rq => fst (dump_once true fresh rq)) rqs.
 Proof. exact dump_seq_independent. Qed.
 Print Assumptions C19_history.
+
+(* Tied to the CURRENT source by the translator: every field of the writer that any code running during a dump request
+   assigns, pushes to, clears, takes or borrows mutably is among the fields that dump() resets before anything else -
+   a request never modifies the caller's configuration, and what it records is cleared before the next one starts. *)
+Theorem C19_only_reset_state_is_mutated : forall f, In f dump_mutated_fields -> In f dump_reset_fields.
+Proof. exact dump_mutates_only_reset_state. Qed.
+Print Assumptions C19_only_reset_state_is_mutated.
 
 (* The writer before the repair leaks: the second of two identical requests lists two blocks. *)
 Theorem C19_refuted_memlist :
